@@ -1004,4 +1004,530 @@ theorem normalizeHost_lower {idna : Str → Option Str} (hc : ∀ l r, idna l = 
       rw [List.map_congr_left hl, List.map_id]
       rfl
 
+/-! ## agreement with the reference reading -/
+
+theorem takeWhile_append_stop {p : Nat → Bool} (r : Str) (y : Nat) (b : Str)
+    (hr : ∀ x ∈ r, p x = true) (hy : p y = false) :
+    (r ++ y :: b).takeWhile p = r ∧ (r ++ y :: b).dropWhile p = y :: b := by
+  induction r with
+  | nil => simp [List.takeWhile, List.dropWhile, hy]
+  | cons x t ih =>
+    have hx := hr x (List.mem_cons_self ..)
+    have := ih (fun z hz => hr z (List.mem_cons_of_mem _ hz))
+    simp [List.takeWhile, List.dropWhile, hx, this]
+
+theorem takeWhile_all {p : Nat → Bool} (r : Str) (hr : ∀ x ∈ r, p x = true) :
+    r.takeWhile p = r ∧ r.dropWhile p = [] := by
+  induction r with
+  | nil => simp
+  | cons x t ih =>
+    have hx := hr x (List.mem_cons_self ..)
+    have := ih (fun z hz => hr z (List.mem_cons_of_mem _ hz))
+    simp [List.takeWhile, List.dropWhile, hx, this]
+
+theorem hexC_ne58 {c : Nat} (h : isHexC c = true) : c ≠ 58 := by
+  simp only [isHexC, isDigitC, Bool.or_eq_true, Bool.and_eq_true, decide_eq_true_eq] at h
+  omega
+
+/-- the reg-name run contains no `:` -/
+theorem regName_no58 (ts : List Tok) (hok : ∀ t ∈ ts, t.ok = true) (hr : ∀ t ∈ ts, regNameTok t = true) :
+    ∀ x ∈ renderToks ts, (x != 58) = true := by
+  induction ts with
+  | nil => simp
+  | cons t r ih =>
+    have ih' := ih (fun x hx => hok x (List.mem_cons_of_mem _ hx)) (fun x hx => hr x (List.mem_cons_of_mem _ hx))
+    have ht := hr t (List.mem_cons_self ..)
+    have hk := hok t (List.mem_cons_self ..)
+    intro x hx
+    simp only [render_cons, List.mem_append] at hx
+    rcases hx with hx | hx
+    · cases t with
+      | chr c =>
+        simp only [Tok.text, List.mem_singleton] at hx
+        subst hx
+        simp only [regNameTok, regNameChar] at ht
+        simp only [bne_iff_ne, ne_eq]
+        intro e; subst e; simp at ht
+      | esc a b =>
+        simp only [Tok.ok, Bool.and_eq_true] at hk
+        simp only [Tok.text, List.mem_cons, List.not_mem_nil, or_false] at hx
+        simp only [bne_iff_ne, ne_eq]
+        rcases hx with rfl | rfl | rfl
+        · decide
+        · exact hexC_ne58 hk.1
+        · exact hexC_ne58 hk.2
+    · exact ih' x hx
+
+/-- what is left after the reg-name run is empty or starts with a character outside the reg-name
+class -/
+theorem regName_rest (ts : List Tok) :
+    renderToks (ts.dropWhile regNameTok) = [] ∨
+      ∃ c r, renderToks (ts.dropWhile regNameTok) = c :: r ∧ regNameChar c = false := by
+  induction ts with
+  | nil => simp
+  | cons t r ih =>
+    simp only [List.dropWhile]
+    cases ht : regNameTok t with
+    | true => simpa using ih
+    | false =>
+      right
+      cases t with
+      | chr c => exact ⟨c, renderToks r, by simp [Tok.text], by simpa [regNameTok] using ht⟩
+      | esc a b => simp [regNameTok] at ht
+
+theorem mem_takeWhile_p {p : Nat → Bool} {l : Str} {x : Nat} (h : x ∈ l.takeWhile p) : p x = true := by
+  induction l with
+  | nil => simp at h
+  | cons y t ih =>
+    simp only [List.takeWhile] at h
+    split at h
+    · simp only [List.mem_cons] at h
+      rcases h with rfl | h
+      · assumption
+      · exact ih h
+    · simp at h
+
+theorem mem_takeWhile_tok {p : Tok → Bool} {l : List Tok} {x : Tok} (h : x ∈ l.takeWhile p) : p x = true := by
+  induction l with
+  | nil => simp at h
+  | cons y t ih =>
+    simp only [List.takeWhile] at h
+    split at h
+    · simp only [List.mem_cons] at h
+      rcases h with rfl | h
+      · assumption
+      · exact ih h
+    · simp at h
+
+theorem decNat_zeros (z d : Str) (hz : ∀ c ∈ z, c = 48) : decNat (z ++ d) = decNat d := by
+  unfold decNat
+  rw [List.foldl_append]
+  congr 1
+  induction z with
+  | nil => rfl
+  | cons c t ih =>
+    have hc := hz c (List.mem_cons_self ..)
+    subst hc
+    simpa using ih (fun x hx => hz x (List.mem_cons_of_mem _ hx))
+
+/-- value of the captured port = value of the whole port text; the text is all digits -/
+theorem portCapture_value (b cap : Str) (h : portCapture b = some cap) :
+    (if cap.isEmpty then none else some (decNat cap)) = (if b.isEmpty then none else some (decNat b)) ∧
+    b.all isDigitC = true := by
+  have hsplit : b = b.takeWhile (· == 48) ++ b.dropWhile (· == 48) := (List.takeWhile_append_dropWhile).symm
+  have hz : ∀ c ∈ b.takeWhile (· == 48), c = 48 := by
+    intro c hc
+    simpa using mem_takeWhile_p hc
+  have hzd : (b.takeWhile (· == 48)).all isDigitC = true := by
+    rw [List.all_eq_true]
+    intro c hc
+    rw [hz c hc]; decide
+  unfold portCapture at h
+  simp only at h
+  split at h
+  · rename_i hd
+    have hd' : b.dropWhile (· == 48) = [] := by simpa using hd
+    split at h
+    · rename_i hb
+      have hb' : b = [] := by simpa using hb
+      simp only [Option.some.injEq] at h
+      subst h; subst hb'
+      simp
+    · rename_i hb
+      simp only [Option.some.injEq] at h
+      subst h
+      have e : decNat b = 0 := by
+        rw [hsplit, hd', decNat_zeros _ _ hz]; rfl
+      constructor
+      · have e0 : decNat [48] = 0 := rfl
+        simp [hb, e, e0]
+      · rw [hsplit, hd']; simpa using hzd
+  · split at h
+    · rename_i hd hall
+      simp only [Option.some.injEq] at h
+      subst h
+      simp only [Bool.and_eq_true, decide_eq_true_eq] at hall
+      have hbne : b.isEmpty = false := by
+        cases b with
+        | nil => simp at hd
+        | cons _ _ => rfl
+      constructor
+      · rw [if_neg hd, hbne]
+        simp only [Bool.false_eq_true, if_false, Option.some.injEq]
+        conv => rhs; rw [hsplit, decNat_zeros _ _ hz]
+      · rw [hsplit, List.all_append, hzd, hall.1]; rfl
+    · simp at h
+
+theorem stripNl_of_not_nl (b : Str) (h : b.getLast? ≠ some 10) : stripNl b = b := by
+  simp [stripNl, h]
+
+/-- the port value `parse_url` computes from group 2 of `_HOST_PORT_RE` -/
+def portVal : Option Str → Option Nat
+  | some d => if d.isEmpty then none else some (decNat d)
+  | none => none
+
+theorem portPart_colon (q : Str) (p : Option Str) (hq : q.getLast? ≠ some 10)
+    (h : portPart (58 :: q) = some p) :
+    portVal p = refPortValue (some q) ∧ q.all isDigitC = true := by
+  simp only [portPart, stripNl_of_not_nl q hq] at h
+  cases hc : portCapture q with
+  | none => simp [hc] at h
+  | some cap =>
+    simp only [hc, Option.map_some, Option.some.injEq] at h
+    subst h
+    have := portCapture_value q cap hc
+    exact ⟨by simpa [portVal, refPortValue] using this.1, this.2⟩
+
+theorem tokenize_bracket (t : Str) : tokenize (91 :: t) = .chr 91 :: tokenize t := by
+  simp [tokenize, tokAux]
+
+theorem hostPortBracket_ref (hp h : Str) (p : Option Str) (hm : hostPortBracket hp = some (h, p))
+    (hnl : ∀ q, (refHostPort hp).2.1 = some q → q.getLast? ≠ some 10)
+    (hwf : (refHostPort hp).2.2 = true) :
+    h = (refHostPort hp).1 ∧ portVal p = refPortValue (refHostPort hp).2.1 ∧
+    (∀ q, (refHostPort hp).2.1 = some q → q.all isDigitC = true) := by
+  match hp, hm with
+  | 91 :: t, hm =>
+    cases hd : t.dropWhile (· != 93) with
+    | nil => simp [hostPortBracket, hd] at hm
+    | cons y rest' =>
+      by_cases hy : y = 93
+      · subst hy
+        simp only [hostPortBracket, hd] at hm
+        split at hm
+        · cases rest' with
+          | nil =>
+            simp only [portPart, Option.map_some, Option.some.injEq, Prod.mk.injEq] at hm
+            obtain ⟨rfl, rfl⟩ := hm
+            simp [refHostPort, hd, portVal, refPortValue]
+          | cons x q =>
+            by_cases hx : x = 58
+            · subst hx
+              simp only [refHostPort, hd] at hnl ⊢
+              cases hpp : portPart (58 :: q) with
+              | none => simp [hpp] at hm
+              | some p' =>
+                simp only [hpp, Option.map_some, Option.some.injEq, Prod.mk.injEq] at hm
+                obtain ⟨rfl, rfl⟩ := hm
+                have := portPart_colon q p' (hnl q rfl) hpp
+                refine ⟨rfl, this.1, ?_⟩
+                intro q' hq'
+                simp only [Option.some.injEq] at hq'
+                subst hq'
+                exact this.2
+            · exfalso
+              have : (refHostPort (91 :: t)).2.2 = false := by
+                simp only [refHostPort, hd]
+                split
+                · rename_i heq; exact absurd heq (by simp)
+                · rename_i heq; injection heq with h1 _; exact absurd h1 hx
+                · rfl
+              rw [this] at hwf; exact absurd hwf (by decide)
+        · simp at hm
+      · simp only [hostPortBracket, hd] at hm
+        split at hm
+        · rename_i heq; injection heq with h1 _; exact absurd h1 hy
+        · simp at hm
+  | [], hm => simp [hostPortBracket] at hm
+
+theorem refHostPort_nb (hp : Str) (h : ∀ t, hp ≠ 91 :: t) :
+    refHostPort hp = (match hp.dropWhile (· != 58) with
+      | 58 :: p => (hp.takeWhile (· != 58), some p, true)
+      | _ => (hp.takeWhile (· != 58), none, true)) := by
+  unfold refHostPort
+  split
+  · exact absurd rfl (h _)
+  · rfl
+
+theorem hostPortBracket_nb (hp : Str) (h : ∀ t, hp ≠ 91 :: t) : hostPortBracket hp = none := by
+  unfold hostPortBracket
+  split
+  · exact absurd rfl (h _)
+  · rfl
+
+theorem portPart_head (c : Nat) (r : Str) (p : Option Str) (hc : regNameChar c = false)
+    (h : portPart (c :: r) = some p) : c = 58 := by
+  by_cases h58 : c = 58
+  · exact h58
+  · exfalso
+    unfold portPart at h
+    split at h
+    · simp at *
+    · rename_i heq
+      injection heq with h1 _
+      subst h1
+      simp [regNameChar] at hc
+    · rename_i heq
+      injection heq with h1 _
+      exact h58 h1
+    · simp at h
+
+/-- `_HOST_PORT_RE` and the reference reading cut `host [":" port]` at the same places -/
+theorem hostPortRe_ref (hp h : Str) (p : Option Str) (hm : hostPortRe hp = some (h, p))
+    (hnl : ∀ q, (refHostPort hp).2.1 = some q → q.getLast? ≠ some 10)
+    (hwf : (refHostPort hp).2.2 = true) :
+    h = (refHostPort hp).1 ∧ portVal p = refPortValue (refHostPort hp).2.1 ∧
+    (∀ q, (refHostPort hp).2.1 = some q → q.all isDigitC = true) := by
+  by_cases hb : ∃ t, hp = 91 :: t
+  · obtain ⟨t, rfl⟩ := hb
+    have e : List.flatMap Tok.text (Tok.chr 91 :: tokenize t) = 91 :: t := by
+      have := render_tokenize (91 :: t)
+      rw [tokenize_bracket] at this
+      exact this
+    have hp0 : portPart (91 :: t) = none := by simp [portPart]
+    unfold hostPortRe at hm
+    simp only [tokenize_bracket, List.dropWhile, regNameTok, regNameChar, beq_self_eq_true,
+      Bool.true_or, Bool.not_true, e, hp0] at hm
+    exact hostPortBracket_ref _ h p hm hnl hwf
+  · have hnb : ∀ t, hp ≠ 91 :: t := fun t e => hb ⟨t, e⟩
+    rw [refHostPort_nb hp hnb] at hnl hwf ⊢
+    unfold hostPortRe at hm
+    simp only at hm
+    have hok : ∀ x ∈ tokenize hp, x.ok = true := tokenize_ok _
+    have hjoin : renderToks ((tokenize hp).takeWhile regNameTok) ++
+        renderToks ((tokenize hp).dropWhile regNameTok) = hp := by
+      rw [← render_append, List.takeWhile_append_dropWhile, render_tokenize]
+    have hR58 := regName_no58 ((tokenize hp).takeWhile regNameTok)
+      (fun x hx => hok x ((List.takeWhile_prefix _).subset hx))
+      (fun x hx => mem_takeWhile_tok hx)
+    change (match portPart (renderToks ((tokenize hp).dropWhile regNameTok)) with
+      | some p => some (renderToks ((tokenize hp).takeWhile regNameTok), p)
+      | none => hostPortBracket hp) = some (h, p) at hm
+    generalize renderToks ((tokenize hp).takeWhile regNameTok) = R at hm hjoin hR58
+    rcases regName_rest (tokenize hp) with hr | ⟨c, r, hr, hc⟩
+    · rw [hr] at hm hjoin
+      simp only [portPart, Option.some.injEq, Prod.mk.injEq] at hm
+      obtain ⟨rfl, rfl⟩ := hm
+      simp only [List.append_nil] at hjoin
+      subst hjoin
+      have := takeWhile_all R hR58
+      simp [this.1, this.2, portVal, refPortValue]
+    · rw [hr] at hm hjoin
+      cases hpp : portPart (c :: r) with
+      | none =>
+        rw [hpp] at hm
+        rw [hostPortBracket_nb hp hnb] at hm
+        simp at hm
+      | some p' =>
+        rw [hpp] at hm
+        simp only [Option.some.injEq, Prod.mk.injEq] at hm
+        obtain ⟨rfl, rfl⟩ := hm
+        have hc58 := portPart_head c r p' hc hpp
+        subst hc58
+        have hs := takeWhile_append_stop R 58 r hR58 (by decide)
+        rw [← hjoin] at hnl hwf ⊢
+        simp only [hs.1, hs.2] at hnl hwf ⊢
+        have := portPart_colon r p' (hnl r rfl) hpp
+        refine ⟨by first | rfl | trivial, this.1, ?_⟩
+        intro q' hq'
+        simp only [Option.some.injEq] at hq'
+        subst hq'
+        exact this.2
+
+theorem parseCore_ok' {idna : Str → Option Str} {s : Str}
+    {sc au ho : Option Str} {po : Option Nat} {pa : Str} {q f : Option Str}
+    (h : parseCore idna s = .ok (sc, au, ho, po, pa, q, f)) :
+    ∃ (h0 : Option Str) (port : Option Str),
+      sc = (splitScheme (if schemeRe s = true then s else 47 :: 47 :: s)).1.map lower ∧
+      parseAuthority (normalizeUriOf (splitScheme (if schemeRe s = true then s else 47 :: 47 :: s)).1)
+        (splitAuthority (splitScheme (if schemeRe s = true then s else 47 :: 47 :: s)).2).1
+          = .ok (au, h0, port) ∧
+      portToInt port = .ok po ∧
+      normalizeHost idna h0 sc = .ok ho := by
+  unfold parseCore at h
+  simp only at h
+  obtain ⟨ahp, h1, h2⟩ := bind_ok h
+  obtain ⟨pi, h3, h4⟩ := bind_ok h2
+  obtain ⟨hh, h5, h6⟩ := bind_ok h4
+  simp only [pure, Except.pure, Except.ok.injEq, Prod.mk.injEq] at h6
+  obtain ⟨e1, e2, e3, e4, -, -, -⟩ := h6
+  refine ⟨ahp.2.1, ahp.2.2, e1.symm, ?_, ?_, ?_⟩
+  · rw [h1, ← e2]
+  · rw [h3, e4]
+  · rw [← e1, h5, e3]
+
+theorem dropWhile_scheme1 (t : Str) (h : 46 ∉ t.takeWhile schemeChar) :
+    t.dropWhile schemeChar1 = t.dropWhile schemeChar := by
+  induction t with
+  | nil => rfl
+  | cons x r ih =>
+    cases hx : schemeChar x with
+    | true =>
+      simp only [List.takeWhile, hx, List.mem_cons, not_or] at h
+      have h1 : schemeChar1 x = true := by
+        simp only [schemeChar, Bool.or_eq_true, beq_iff_eq] at hx
+        rcases hx with hx | hx
+        · exact hx
+        · exact absurd hx.symm h.1
+      simp only [List.dropWhile, hx, h1]
+      exact ih h.2
+    | false =>
+      have h1 : schemeChar1 x = false := by
+        cases h1 : schemeChar1 x with
+        | false => rfl
+        | true => simp [schemeChar, h1] at hx
+      simp [List.dropWhile, hx, h1]
+
+theorem refAuthOfHier_some {x : Str} {r : RefAuth} (h : refAuthOfHier x = some r) :
+    ∃ t' : Str, x = 47 :: 47 :: t' ∧ r = refAuthOfText (t'.takeWhile authChar) := by
+  unfold refAuthOfHier at h
+  split at h
+  · rename_i t'
+    simp only [Option.some.injEq] at h
+    exact ⟨t', rfl, h.symm⟩
+  · simp at h
+
+theorem alpha_ne47 {c : Nat} (h : isAlphaC c = true) : c ≠ 47 := by
+  intro e; subst e; simp [isAlphaC, isUpperC, isLowerC] at h
+
+/-- the front end (`_SCHEME_RE`, `_URI_RE`) hands the matcher the authority text of the reference
+reading, provided the RFC scheme has no `.` -/
+theorem front_end (s : Str) (r : RefAuth) (hr : refAuthority s = some r)
+    (hdot : ∀ sch, refScheme s = some sch → 46 ∉ sch) :
+    schemeRe s = true ∧ ∃ t' : Str, (splitAuthority (splitScheme s).2).1 = some (t'.takeWhile authChar) ∧
+      r = refAuthOfText (t'.takeWhile authChar) := by
+  cases s with
+  | nil => simp [refAuthority, refSchemeRest, refAuthOfHier] at hr
+  | cons c t =>
+    by_cases ha : isAlphaC c = true
+    · have hc47 := alpha_ne47 ha
+      have hno : ∀ r', refAuthOfHier (c :: t) = some r' → False := by
+        intro r' h'
+        obtain ⟨t', e, -⟩ := refAuthOfHier_some h'
+        injection e with e1 _
+        exact hc47 e1
+      cases hd : t.dropWhile schemeChar with
+      | nil =>
+        have : refSchemeRest (c :: t) = none := by simp [refSchemeRest, ha, hd]
+        simp only [refAuthority, this] at hr
+        exact absurd hr (fun h' => hno r h')
+      | cons y rest =>
+        by_cases hy : y = 58
+        · subst hy
+          have : refSchemeRest (c :: t) = some rest := by simp [refSchemeRest, ha, hd]
+          simp only [refAuthority, this] at hr
+          obtain ⟨t', rfl, hrr⟩ := refAuthOfHier_some hr
+          have hsch : refScheme (c :: t) = some (c :: t.takeWhile schemeChar) := by
+            simp [refScheme, ha, hd]
+          have hnd := hdot _ hsch
+          simp only [List.mem_cons, not_or] at hnd
+          have hd1 := dropWhile_scheme1 t hnd.2
+          refine ⟨by simp [schemeRe, hc47, ha, hd1, hd], t', ?_, hrr⟩
+          simp [splitScheme, ha, hd, splitAuthority]
+        · exfalso
+          have : refSchemeRest (c :: t) = none := by
+            simp only [refSchemeRest, ha, if_true, hd]
+            split
+            · rename_i heq; injection heq with h1 _; exact absurd h1 hy
+            · rfl
+          simp only [refAuthority, this] at hr
+          exact hno r hr
+    · have : refSchemeRest (c :: t) = none := by simp [refSchemeRest, ha]
+      simp only [refAuthority, this] at hr
+      obtain ⟨t', e, hrr⟩ := refAuthOfHier_some hr
+      injection e with e1 e2
+      subst e1; subst e2
+      refine ⟨by simp [schemeRe], t', ?_, hrr⟩
+      simp [splitScheme, isAlphaC, isUpperC, isLowerC, splitAuthority]
+
+theorem normalizeHost_some {idna : Str → Option Str} {h : Str} {sc ho : Option Str}
+    (he : normalizeHost idna (some h) sc = .ok ho) : ∃ x, ho = some x := by
+  unfold normalizeHost at he
+  simp only at he
+  split at he
+  · exact ⟨_, by simpa using he.symm⟩
+  · split at he
+    · split at he
+      · split at he <;> exact ⟨_, by simpa using he.symm⟩
+      · split at he
+        · exact ⟨_, by simpa using he.symm⟩
+        · obtain ⟨ls, _, h2⟩ := bind_ok he
+          exact ⟨_, by simpa using h2.symm⟩
+    · exact ⟨_, by simpa using he.symm⟩
+
+theorem normalizeUriOf_eq (sc0 : Option Str) (hn : Gen.normalizableSchemes.contains none = true) :
+    normalizeUriOf sc0 = Gen.normalizableSchemes.contains ((sc0.map lower).map lower) := by
+  cases sc0 with
+  | none => simpa [normalizeUriOf] using hn.symm
+  | some x => simp [normalizeUriOf]
+
+theorem parseUrlWith_ok' {idna : Str → Option Str} {s : Str} {u : Url} (h : parseUrlWith idna s = .ok u) :
+    s = [] ∨ ∃ sc au ho po pa q f, parseCore idna s = .ok (sc, au, ho, po, pa, q, f) ∧
+      u = mkUrl sc au ho po
+        (if pa.isEmpty then (if q.isSome || f.isSome then some [] else none) else some pa) q f := by
+  unfold parseUrlWith at h
+  split at h
+  · left; rename_i he; simpa using he
+  · right
+    split at h
+    · simp at h
+    · rename_i sc au ho po pa q f hf
+      exact ⟨sc, au, ho, po, pa, q, f, funnel_ok hf, by simpa using h.symm⟩
+
+/-- `parse_url` and the reference reading agree on userinfo, host and port -/
+theorem agrees_with_rfc (idna : Str → Option Str) (s : Str) (u : Url) (r : RefAuth)
+    (h : parseUrlWith idna s = .ok u) (hr : refAuthority s = some r)
+    (hdot : ∀ sch, refScheme s = some sch → 46 ∉ sch)
+    (hwf : r.wellFormed = true) (hnl : ∀ p, r.port = some p → p.getLast? ≠ some 10) :
+    normalizeHost idna (some r.host) u.scheme = .ok (some (u.host.getD [])) ∧
+    (u.host = none → r.host = []) ∧
+    u.port = refPortValue r.port ∧
+    (∀ p, r.port = some p → p.all isDigitC = true) ∧
+    u.auth = refAuthValue (Gen.normalizableSchemes.contains u.scheme) r.userinfo := by
+  obtain ⟨hsre, t', hauth, rfl⟩ := front_end s r hr hdot
+  rcases parseUrlWith_ok' h with rfl | ⟨sc, au, ho, po, pa, q, f, hc, rfl⟩
+  · simp [schemeRe] at hsre
+  · obtain ⟨h0, port, hsc, hpa, hport, hhost⟩ := parseCore_ok' hc
+    simp only [hsre, if_true] at hsc hpa
+    rw [hauth] at hpa
+    have hscl : sc.map lower = sc := by
+      rw [hsc]; cases (splitScheme s).1 <;> simp
+    have hnu : normalizeUriOf (splitScheme s).1 = Gen.normalizableSchemes.contains (sc.map lower) := by
+      rw [hsc]; exact normalizeUriOf_eq _ (by decide)
+    simp only [mkUrl, hscl]
+    generalize t'.takeWhile authChar = a at hpa hwf hnl ⊢
+    unfold parseAuthority at hpa
+    simp only at hpa
+    split at hpa
+    · rename_i hae
+      have : a = [] := by simpa using hae
+      subst this
+      simp only [Except.ok.injEq, Prod.mk.injEq] at hpa
+      obtain ⟨rfl, rfl, rfl⟩ := hpa
+      simp only [portToInt, Except.ok.injEq] at hport
+      subst hport
+      simp only [normalizeHost, Except.ok.injEq] at hhost
+      subst hhost
+      have e0 : refAuthOfText [] = ⟨none, [], none, true⟩ := by decide
+      rw [e0]
+      simp [normalizeHost, refPortValue, refAuthValue]
+    · split at hpa
+      · simp at hpa
+      · rename_i hne hh pp hhp
+        simp only [Except.ok.injEq, Prod.mk.injEq] at hpa
+        obtain ⟨rfl, rfl, rfl⟩ := hpa
+        simp only [refAuthOfText] at hwf hnl ⊢
+        obtain ⟨e1, e2, e3⟩ := hostPortRe_ref _ hh pp hhp hnl hwf
+        obtain ⟨x, rfl⟩ := normalizeHost_some hhost
+        refine ⟨?_, by simp, ?_, e3, ?_⟩
+        · rw [← e1]; simpa using hhost
+        · rw [← e2]
+          unfold portToInt at hport
+          cases pp with
+          | none => simp at hport; simp [portVal, hport]
+          | some d =>
+            by_cases hd : d.isEmpty = true
+            · simp [hd] at hport; simp [portVal, hd, hport]
+            · simp only [hd, Bool.false_eq_true, if_false] at hport
+              split at hport
+              · simp only [Except.ok.injEq] at hport
+                simp [portVal, hd, hport]
+              · simp at hport
+        · rw [hnu, hscl]
+          unfold rpartitionAt refAuthValue
+          cases rpart 64 a with
+          | none => simp
+          | some pr => simp
+
+
 end U3.Url
